@@ -580,7 +580,7 @@ func Run(r *vf.Run) {
 	r.Assume("target architecture is the host, linux/amd64 (386/arm binaries cannot be executed in this VM)")
 	r.Assume("the compiler's layout is observed through reflect (Offset/Size/FieldAlign) of the compiled program, cross-checked in the same program against unsafe.Offsetof/Sizeof/Alignof for every field reachable without a blank selector")
 
-	total := r.Pick(120, 6000)
+	total := r.Pick(120, 3000)
 	if v, err := strconv.Atoi(os.Getenv("VERIF_N")); err == nil && v > 0 {
 		total = v // development aid; recorded in evidence as types_generated
 	}
